@@ -27,6 +27,7 @@ type c19Trace struct {
 	Dialect   string         `json:"dialect"`
 	Table     string         `json:"table"`
 	Precision int            `json:"precision"`
+	QueryArgs []interface{}  `json:"query_args,omitempty"`
 	Stmts     []simdb.Stmt   `json:"stmts,omitempty"`
 	Detail    string         `json:"detail,omitempty"`
 	Expected  *obs.Frame     `json:"expected,omitempty"`
@@ -82,8 +83,9 @@ func runC19(t *rapid.T) {
 		cfg.Incrementing = true
 	case 5:
 		tr.Dialect = "custom-escape"
-		conf = append(conf, qsql.EscapeChar('\''))
-		cfg.Escape = '\''
+		// any rune may be configured, also one beyond ASCII
+		cfg.Escape = []rune{'\'', '\'', '\u00b4', '\u2018', '\U0001F600'}[rapid.IntRange(0, 4).Draw(t, "escrune")]
+		conf = append(conf, qsql.EscapeChar(cfg.Escape))
 	}
 	// identifiers from an alphabet that cannot collide with the statement
 	// syntax; without an escape rune only plain identifier characters
@@ -108,6 +110,7 @@ func runC19(t *rapid.T) {
 	cfg.NumInputUnknown = rapid.Bool().Draw(t, "numinput")
 	cfg.TextAsBytes = rapid.Bool().Draw(t, "textbytes")
 	cfg.BoolAsInt = rapid.Bool().Draw(t, "boolint")
+	cfg.TruthyInts = cfg.BoolAsInt && rapid.Bool().Draw(t, "truthy")
 	cfg.FloatAsText = rapid.IntRange(0, 3).Draw(t, "floattext") == 0
 	if cfg.FloatAsText {
 		// the StringToFloat coercion is documented for drivers that deliver the
@@ -225,6 +228,10 @@ func runC19(t *rapid.T) {
 
 	// S2: read the stored rows back
 	readConf := []qsql.ConfigFunc{qsql.Query("SELECT * FROM " + tr.Table)}
+	if rapid.IntRange(0, 2).Draw(t, "withargs") == 0 {
+		readConf = []qsql.ConfigFunc{qsql.Query("SELECT * FROM " + tr.Table + " WHERE 1 = ? AND 'x' <> ?")}
+		tr.QueryArgs = []interface{}{int64(1), "y"}
+	}
 	{
 		var pairs []qsql.CoercePair
 		for i, n := range src.Names {
@@ -279,6 +286,9 @@ func runC19(t *rapid.T) {
 			core.Probe("null-float-result-set")
 			sim.Tables["nulls"] = nullTable
 			readConf[0] = qsql.Query("SELECT * FROM nulls")
+			if tr.QueryArgs != nil {
+				readConf[0] = qsql.Query("SELECT * FROM nulls WHERE 1 = ? AND 'x' <> ?")
+			}
 			readBack(t, tr, tx, readConf, src, "null-floats")
 		}
 	}
@@ -298,7 +308,11 @@ func readBack(t *rapid.T, tr *c19Trace, tx *sql.Tx, readConf []qsql.ConfigFunc, 
 	var rpanic interface{}
 	func() {
 		defer func() { rpanic = recover() }()
-		got = qframe.ReadSQL(tx, readConf...)
+		if tr.QueryArgs != nil {
+			got = qframe.ReadSQLWithArgs(tx, tr.QueryArgs, readConf...)
+		} else {
+			got = qframe.ReadSQL(tx, readConf...)
+		}
 	}()
 	for _, e := range earlier {
 		if obs.Digest(e.f) != e.dig {
